@@ -22,15 +22,12 @@
                                    subclass of int), DeepHash._skip_this
       ignore_private_variables     the [ignore_private] field of Diff.DiffModel.cfg
 
-    Results are [Ok (entries, recorded opcode paths) | Err kind]: the exception
-    classes the code can raise on this universe are
+    Results are [Ok (entries, recorded opcode paths) | Err kind]: the only
+    exception the code raises on this universe is
       ValueError  number_to_string(key, significant_digits=None) during key
-                  cleaning (finding K8)
-      TypeError   DiffLevel.path() on a level whose chain contains a bytes dict
-                  key (finding F5; raised from _skip_this, i.e. whenever such a
-                  level is reported or entered - unless the identity shortcut
-                  [level.t1 is level.t2] returns first, which for tree-shaped
-                  inputs with interned atoms means: two identical atoms).
+                  cleaning (finding K8).
+    (Before the fix 0fac13b the path printer also raised TypeError on bytes
+    dict keys - finding F5; the model followed that and was simplified with it.)
 
     Numbers: number_to_string and math.isclose are defined on dyadic rationals
     m / 2^e (exact); the atoms of the shared universe embed as e = 0 (int,
@@ -43,7 +40,7 @@ From DD Require Import Base.PyStr Base.Value Diff.Tree Diff.DiffModel.
 (* ---------------------------------------------------------------------- *)
 (* results                                                                  *)
 (* ---------------------------------------------------------------------- *)
-Inductive ekind := EValue (* ValueError *) | EType (* TypeError *).
+Inductive ekind := EValue (* ValueError *).
 Inductive res (A : Type) := Ok (x : A) | Err (e : ekind).
 Arguments Ok {A} x.
 Arguments Err {A} e.
@@ -354,26 +351,20 @@ Definition shortcutF (k1 k2 : list atom) : bool :=
   let ulen := List.length union in
   Nat.ltb 1 ulen && Nat.ltb (List.length inter * thr_den c) (thr_num c * ulen).
 
-(* DiffLevel.path() raises TypeError on a bytes dict key *)
-Definition bytes_key (k : atom) : bool := is_bytes k.
-
-(* reports of added / removed keys, in order; the first bytes key raises *)
+(* reports of added / removed keys, in order *)
 Fixpoint key_reports (kind : rkind) (cks other : list atom) (km : list (atom * atom))
-         (kvs : list (atom * value)) (p1 p2 : path) : res (list entry) :=
+         (kvs : list (atom * value)) (p1 p2 : path) : list entry :=
   match cks with
-  | [] => Ok []
+  | [] => []
   | ck :: r =>
       if mem_atom ck other then key_reports kind r other km kvs p1 p2
       else
         let k := orig_key km ck in
-        if bytes_key k then Err EType
-        else
-          let v := assoc k kvs in
-          let e := match kind with
-                   | KDictAdd => reportF kind (snoc p1 (PKey k)) (snoc p2 (PKey k)) None v None
-                   | _ => reportF kind (snoc p1 (PKey k)) (snoc p2 (PKey k)) v None None
-                   end in
-          bind (key_reports kind r other km kvs p1 p2) (fun rest => Ok (e ++ rest)%list)
+        let v := assoc k kvs in
+        (match kind with
+         | KDictAdd => reportF kind (snoc p1 (PKey k)) (snoc p2 (PKey k)) None v None
+         | _ => reportF kind (snoc p1 (PKey k)) (snoc p2 (PKey k)) v None None
+         end ++ key_reports kind r other km kvs p1 p2)%list
   end.
 
 (* ---- _diff ---- *)
@@ -393,8 +384,8 @@ Fixpoint diffF (t1 t2 : value) (p1 p2 : path) {struct t1} : res (list entry * li
         let k2 := ckeys r2 km2 in
         if shortcutF k1 k2 then Ok (reportF KValue p1 p2 (Some t1) (Some t2) None, [])
         else
-          bind (key_reports KDictAdd k2 k1 km2 kvs2 p1 p2) (fun added =>
-          bind (key_reports KDictRem k1 k2 km1 kvs1 p1 p2) (fun removed =>
+          let added := key_reports KDictAdd k2 k1 km2 kvs2 p1 p2 in
+          let removed := key_reports KDictRem k1 k2 km1 kvs1 p1 p2 in
           bind ((fix go (l : list (atom * value)) : res (list entry * list path) :=
                    match l with
                    | [] => Ok ([], [])
@@ -406,14 +397,7 @@ Fixpoint diffF (t1 t2 : value) (p1 p2 : path) {struct t1} : res (list entry * li
                                match find (py_eq ck) k2 with      (* the key object of t2 is the child parameter *)
                                | Some ck' =>
                                    match assoc (orig_key km2 ck') kvs2 with
-                                   | Some v2 =>
-                                       if bytes_key ck' then
-                                         match v1, v2 with
-                                         | VAtom a, VAtom b =>        (* identity shortcut before _skip_this *)
-                                             if atom_eqb a b then Ok ([], []) else Err EType
-                                         | _, _ => Err EType
-                                         end
-                                       else diffF v1 v2 (snoc p1 (PKey ck')) (snoc p2 (PKey ck'))
+                                   | Some v2 => diffF v1 v2 (snoc p1 (PKey ck')) (snoc p2 (PKey ck'))
                                    | None => Ok ([], [])
                                    end
                                | None => Ok ([], [])
@@ -423,7 +407,7 @@ Fixpoint diffF (t1 t2 : value) (p1 p2 : path) {struct t1} : res (list entry * li
                          else Ok ([], []) in
                        bind here (fun x => bind (go r) (fun rest => Ok (app2 x rest)))
                    end) kvs1) (fun common =>
-          Ok ((added ++ removed ++ fst common)%list, snd common))))))
+          Ok ((added ++ removed ++ fst common)%list, snd common))))
   | VList xs, VList ys | VTuple xs, VTuple ys =>
       if negb (zip c) && forallb is_atom xs && forallb is_atom ys
       then let '(es, rec) := default_leaf_listF xs ys p1 p2 in Ok (es, if rec then [p1] else [])
